@@ -816,6 +816,48 @@ func (g *gen) misuseProbe(kind string, s shadow) (call, bool) {
 	return c, ok
 }
 
+// exhaustive: small families enumerated completely (independent of the seed):
+// every ordered pair of check kinds at plan level and at block level (duplicate iff equal);
+// every kind of call at every one of the five cursor positions; every invalid ChecksType at both levels.
+func exhaustive() (out []session, names []string) {
+	g := &gen{r: core.NewRand(7)}
+	plain := func(c call) call { c.Name, c.Descr, c.Plugin, c.Acts = nOk, nOk, nOk, nil; return c }
+	newS := func() session { g.lab = 0; return session{New: call{Kind: "reset", Lab: g.next()}} }
+	up, plan := call{Kind: "up"}, call{Kind: "plan"}
+	for t1 := 1; t1 <= 5; t1++ {
+		for t2 := 1; t2 <= 5; t2++ {
+			s := newS()
+			s.Calls = []call{plain(g.mkChecks(t1)), plain(g.mkAction()), up, plain(g.mkChecks(t2)), plain(g.mkAction()), up, plan}
+			out, names = append(out, s), append(names, "pairs-plan")
+			s = newS()
+			s.Calls = []call{plain(g.mkBlock()), plain(g.mkChecks(t1)), up, plain(g.mkChecks(t2)), plain(g.mkAction()), up, up, plan}
+			out, names = append(out, s), append(names, "pairs-block")
+		}
+	}
+	levels := map[string]func() []call{
+		"plan":    func() []call { return nil },
+		"pchecks": func() []call { return []call{plain(g.mkChecks(1))} },
+		"block":   func() []call { return []call{plain(g.mkBlock())} },
+		"bchecks": func() []call { return []call{plain(g.mkBlock()), plain(g.mkChecks(2))} },
+		"seq":     func() []call { return []call{plain(g.mkBlock()), plain(g.mkSeq())} },
+	}
+	for _, lv := range []string{"plan", "pchecks", "block", "bchecks", "seq"} {
+		for _, mk := range []func() call{func() call { return up }, func() call { return plan }, func() call { return plain(g.mkChecks(3)) },
+			func() call { return plain(g.mkBlock()) }, func() call { return plain(g.mkSeq()) }, func() call { return plain(g.mkAction()) },
+			func() call { return g.mkReset(true) }} {
+			s := newS()
+			s.Calls = append(levels[lv](), mk(), plain(g.mkAction()), plan)
+			out, names = append(out, s), append(names, "level-x-call")
+		}
+		for _, bad := range []int{0, 6, -1, 99} {
+			s := newS()
+			s.Calls = append(levels[lv](), plain(g.mkChecks(bad)), plan)
+			out, names = append(out, s), append(names, "badtype-x-level")
+		}
+	}
+	return out, names
+}
+
 func main() {
 	n := flag.Int("n", 600, "number of sessions")
 	out := flag.String("out", "-", "output file (JSONL)")
@@ -827,18 +869,26 @@ func main() {
 	}
 	defer w.Close()
 	root := core.NewRand(core.Seed())
-	for i := 0; i < *n; i++ {
-		g := &gen{r: root.Fork(uint64(i))}
-		family := "inject"
-		switch k := i % 20; {
-		case k < 5:
-			family = "valid"
-		case k == 5:
-			family = "new-invalid"
-		case k == 6 || k == 7:
-			family = "random"
+	exh, exhNames := exhaustive()
+	for i := 0; i < *n+len(exh); i++ {
+		var s session
+		var injected, family string
+		if i < len(exh) {
+			s, family, injected = exh[i], "exhaustive", exhNames[i]
+		} else {
+			j := i - len(exh)
+			g := &gen{r: root.Fork(uint64(j))}
+			family = "inject"
+			switch k := j % 20; {
+			case k < 5:
+				family = "valid"
+			case k == 5:
+				family = "new-invalid"
+			case k == 6 || k == 7:
+				family = "random"
+			}
+			s, injected = g.session(family)
 		}
-		s, injected := g.session(family)
 		so := runSession(s)
 		callTerms := make([]string, len(s.Calls))
 		kinds := map[string]int{}
